@@ -41,6 +41,30 @@ def evenint(value):
     return v
 
 
+_INNER = {}
+INNER_SCHEMA = ('<schema><key name="k" datatype="integer" default="1"/><sectiontype name="s"><key name="v"/>'
+                '</sectiontype><multisection name="*" type="s" attribute="ss"/></schema>')
+
+
+def reentrant(value):
+    """The identity on strings -- computed by using ZConfig while ZConfig is using this function:
+    one nested load that succeeds (with a %define of a name the outer texts define too, and a
+    section) and one that is refused half-way through."""
+    import io
+    import ZConfig
+    if _INNER.get("owner") is not ZConfig:
+        _INNER["owner"] = ZConfig
+        _INNER["schema"] = ZConfig.loadSchemaFile(io.StringIO(INNER_SCHEMA))
+    cfg, _ = ZConfig.loadConfigFile(_INNER["schema"], io.StringIO("%define zd 7\nk $zd\n<s a>\n v x\n</s>\n"))
+    if cfg.k != 7 or cfg.ss[0].v != "x":
+        raise RuntimeError("zcv.dt.reentrant: nested load gave k=%r" % (cfg.k,))
+    try:
+        ZConfig.loadConfigFile(_INNER["schema"], io.StringIO("%define zd 8\nk nope\n<s a>\n"))
+    except ZConfig.ConfigurationError:
+        pass
+    return value
+
+
 def nested(value):
     """A datatype built on ZConfig itself: it refuses a value the way ZConfig's own machinery
     would -- with a DataConversionError (a ValueError like any other) that speaks of some
